@@ -1,3 +1,122 @@
-(* C03 - generated model loaders / dumpers honour the configured outer layout exactly. (statements follow) *)
-From Coq Require Import List String.
-From AV Require Import Model.Layout Model.CrownSem.
+(* C03 - generated model loaders / dumpers honour the configured outer layout exactly.
+   Statements only; proofs in Proofs/LayoutProofs.v (model: Model/Layout.v, Model/NameStyle.v) and Proofs/CrownProofs.v
+   (model: Model/CrownSem.v). *)
+From Coq Require Import List Arith Bool String.
+From AV Require Import Model.NameStyle Model.Layout Model.CrownSem Proofs.LayoutProofs Proofs.CrownProofs.
+Import ListNotations.
+Local Open Scope list_scope.
+
+(* ---- which path the rules assign: map > name_style / trim, skip > only, earlier providers override later ones ---- *)
+Theorem C03_map_decides : forall sc out idx f gk r,
+  generate_key sc idx (f_name f) = Some gk -> first_entry (f_name f) (s_map sc) = Some r ->
+  map_field sc out idx f =
+    match resolve gk r with Some p => if presented sc f then At p else Absent | None => Absent end.
+Proof. exact map_decides. Qed.
+Print Assumptions C03_map_decides.
+
+Theorem C03_explicit_key_ignores_style : forall sc out idx f gk k,
+  generate_key sc idx (f_name f) = Some gk -> first_entry (f_name f) (s_map sc) = Some (MPath [RK k]) ->
+  presented sc f = true -> map_field sc out idx f = At [k].
+Proof. exact explicit_key_ignores_style. Qed.
+Print Assumptions C03_explicit_key_ignores_style.
+
+Theorem C03_unmapped_gets_generated_key : forall sc out idx f gk,
+  generate_key sc idx (f_name f) = Some gk -> first_entry (f_name f) (s_map sc) = None ->
+  (out && String.prefix "_" (f_name f)) = false -> presented sc f = true ->
+  map_field sc out idx f = At [gk].
+Proof. exact unmapped_gets_generated_key. Qed.
+Print Assumptions C03_unmapped_gets_generated_key.
+
+Theorem C03_skip_beats_only : forall sc out idx f p,
+  mem (f_name f) (s_skip sc) = true -> map_field sc out idx f <> At p.
+Proof. exact skip_beats_only. Qed.
+Print Assumptions C03_skip_beats_only.
+
+Theorem C03_only_restricts : forall sc out idx f p l,
+  s_only sc = Some l -> mem (f_name f) l = false -> map_field sc out idx f <> At p.
+Proof. exact only_restricts. Qed.
+Print Assumptions C03_only_restricts.
+
+Theorem C03_earlier_overlay_wins : forall o rest,
+  (forall b, o_trim o = Some b -> s_trim (provide_schema (o :: rest)) = b) /\
+  (forall s, o_style o = Some s -> s_style (provide_schema (o :: rest)) = s) /\
+  (forall b, o_as_list o = Some b -> s_as_list (provide_schema (o :: rest)) = b) /\
+  (forall l, o_skip o = Some l -> s_skip (provide_schema (o :: rest)) = l) /\
+  (forall l, o_only o = Some l -> s_only (provide_schema (o :: rest)) = l) /\
+  (forall x, o_omit o = Some x -> s_omit (provide_schema (o :: rest)) = x) /\
+  (forall x, o_extra_in o = Some x -> s_extra_in (provide_schema (o :: rest)) = x) /\
+  (forall x, o_extra_out o = Some x -> s_extra_out (provide_schema (o :: rest)) = x).
+Proof. exact earlier_overlay_wins. Qed.
+Print Assumptions C03_earlier_overlay_wins.
+
+Theorem C03_earlier_map_entries_first : forall o rest m,
+  o_map o = Some m -> s_map (provide_schema (o :: rest)) = m ++ s_map (provide_schema rest).
+Proof. exact earlier_map_entries_first. Qed.
+Print Assumptions C03_earlier_map_entries_first.
+
+(* ---- from the rules to the crown: for EVERY shape and EVERY stack of providers, whenever the layout is accepted, each
+   presented field is found in the crown at exactly the path the rules gave it ---- *)
+Theorem C03_layout_puts_every_field_at_its_path : forall stack output fs c paths,
+  make_layout stack output fs = Good c paths ->
+  forall f p, In (f, p) paths -> get c p = Some (CField f).
+Proof. exact layout_puts_every_field_at_its_path. Qed.
+Print Assumptions C03_layout_puts_every_field_at_its_path.
+
+(* ---- from the crown to behaviour, for every crown, every datum, DISABLE and FIRST mode, every extra policy: a successful
+   load took each field from exactly its path (or the default of an optional field whose key is absent), in crown order,
+   and loaded nothing else ---- *)
+Theorem C03_loader_reads_exact_paths : forall info pol md c, is_leaf c = false ->
+  forall p d f0 f x, first info pol md c p d f0 = Go1 f x ->
+    exists vals, f = f0 ++ vals /\ Forall2 (sourced info d) (leaves c) vals.
+Proof. intros info pol md c. exact (loader_reads_exact_paths info pol md c). Qed.
+Print Assumptions C03_loader_reads_exact_paths.
+
+(* ---- the dumper writes every field at that same path; a field directly in a mapping node is left out exactly when its
+   sieve applies and its value equals its default; list gaps are None ---- *)
+Theorem C03_dumper_writes_exact_paths : forall value omit default c, wf c -> is_leaf c = false ->
+  forall d, dump value omit default c = Some d -> placed value omit default d c.
+Proof. exact dumper_writes_exact_paths. Qed.
+Print Assumptions C03_dumper_writes_exact_paths.
+
+Theorem C03_list_gaps_are_None : forall value omit default, dump value omit default CNone = Some VNone.
+Proof. exact list_gaps_are_None. Qed.
+Print Assumptions C03_list_gaps_are_None.
+
+(* ---- extras ---- *)
+Theorem C03_collect_delivers_exactly_the_unknown_items : forall info md m p d f0 f x,
+  m <> [] -> flat m -> first info Collect md (CDict m) p d f0 = Go1 f x -> x = unknown_items m d.
+Proof. exact collect_delivers_exactly_the_unknown_items. Qed.
+Print Assumptions C03_collect_delivers_exactly_the_unknown_items.
+
+Theorem C03_forbid_reports_exactly_the_unknown_keys : forall info md m p d f0,
+  (forall f x, first info Forbid md (CDict m) p d f0 = Go1 f x -> unknown_keys m d = [] /\ x = []) /\
+  (forall ks t, first info Forbid md (CDict m) p d f0 = Stop (CrownSem.E (ExtraFields ks) t) ->
+     flat m -> ks = unknown_keys m d /\ ks <> []).
+Proof. exact forbid_reports_exactly_the_unknown_keys. Qed.
+Print Assumptions C03_forbid_reports_exactly_the_unknown_keys.
+
+Theorem C03_skip_delivers_nothing : forall info md c p d f0 f x, is_leaf c = false ->
+  first info Skip md c p d f0 = Go1 f x -> x = [].
+Proof. exact skip_delivers_nothing. Qed.
+Print Assumptions C03_skip_delivers_nothing.
+
+(* ---- non-vacuity: a nested layout with a list node and a gap, built from two providers ---- *)
+Local Open Scope string_scope.
+Definition ex_stack : list overlay :=
+  [ {| o_map := Some [ {| e_names := ["b"]; e_res := MPath [RK (KS "n"); RK (KI 2)] |} ]; o_trim := None; o_style := None;
+       o_as_list := None; o_skip := None; o_only := None; o_omit := None; o_extra_in := Some XForbid; o_extra_out := None |};
+    {| o_map := Some [ {| e_names := ["a_"]; e_res := MPath [RK (KS "n"); RK (KI 0)] |};
+                       {| e_names := ["b"]; e_res := MPath [RK (KS "ignored")] |} ];
+       o_trim := None; o_style := Some (Some Camel); o_as_list := None; o_skip := None; o_only := None; o_omit := None;
+       o_extra_in := Some XSkip; o_extra_out := None |} ].
+Definition ex_fields : list fld :=
+  [ {| f_id := 0; f_name := "a_"; f_required := true |}; {| f_id := 1; f_name := "b"; f_required := true |};
+    {| f_id := 2; f_name := "user_name"; f_required := false |} ].
+Example C03_nonvacuous :
+  make_layout ex_stack false ex_fields =
+    Good (CDict [("userName", CField 2); ("n", CList [CField 0; CNone; CField 1])])
+         [(0, [KS "n"; KI 0]); (1, [KS "n"; KI 2]); (2, [KS "userName"])] /\
+  load (fun i => {| fi_required := negb (Nat.eqb i 2); fi_default := 7 |}) Forbid First
+       (CDict [("userName", CField 2); ("n", CList [CField 0; CNone; CField 1])])
+       (VDict [(KS "n", VList [VInt 5; VStr "gap"; VInt 6])]) = Loaded [(2, 7); (0, 5); (1, 6)] [].
+Proof. split; reflexivity. Qed.
